@@ -1,4 +1,7 @@
 """C03 - One curve per window, in input order, independent of the other windows."""
+import math
+import os
+
 import numpy as np
 from hypothesis import strategies as st
 
@@ -77,6 +80,44 @@ def strategy(draw):
     return dict(records=recs, spec=spec, perm=list(perm), sub=sub, above=above)
 
 
+BIG = {"quick": 4, "thorough": 24}
+
+
+@st.composite
+def strategy_big(draw):
+    """Many windows x long FFTs: the raw spectra of one time-step group occupy 2^24 .. 2^27 bytes in the quick tier and up
+    to 2^28.7 bytes (430 MB; e.g. 40 windows with n = 2^20) in the thorough tier, where blocked implementations change path."""
+    case = draw(strategy())
+    spec = case["spec"]
+    if draw(st.booleans()):
+        spec["method"] = draw(gen.choice(list(gen.FD_METHODS)))       # the main (frequency-domain combination) path in half of the scale cases
+    top = 27.0 if os.environ.get("VF_TIER", "quick") == "quick" else 28.7
+    b = draw(st.sampled_from([24.0, 25.0, 26.0, 27.0, 27.6, 28.1, 28.3, 28.5, 28.7, 28.7]))
+    b = min(b, top)
+    e = draw(st.sampled_from([17, 18, 19, 20, 20]))
+    count = int(max(5, min(96, round(2.0 ** b / (8.0 * 2 ** e))))) + draw(st.sampled_from([0, 1, 3]))
+    proto = case["records"]
+    dts = sorted(set(r["dt"] for r in proto))
+    recs = []
+    for i in range(count):
+        r = {k: (dict(v) if isinstance(v, dict) else v) for k, v in proto[i % len(proto)].items()}
+        for c in ("ns", "ew", "vt"):
+            if "seed" in r[c]:
+                r[c]["seed"] = (r[c]["seed"] + 7919 * i) % 2 ** 32
+            r[c]["scale_exp"] = r[c].get("scale_exp", 0)
+        r["dt"] = dts[0] if (len(dts) == 1 or i % 11) else dts[-1]          # one large group, a few windows of another time step
+        recs.append(r)
+    spec["fft_n"], spec["_nfft"] = 2 ** e, 2 ** e
+    used = sorted(set(r["dt"] for r in recs))
+    fcs = draw(gen.center_frequencies(spec["op"], spec["bw"], 1.0 / (2 ** e * min(used)), 0.5 / max(used), max_size=4))
+    if fcs is None:
+        spec["op"], spec["bw"] = "konno_and_ohmachi", 40.0
+        fcs = draw(gen.center_frequencies(spec["op"], spec["bw"], 1.0 / (2 ** e * min(used)), 0.5 / max(used), max_size=4))
+    spec["fcs"] = fcs
+    case.update(records=recs, spec=spec, perm=list(range(count)), sub=list(range(0, count, 2)), above=None, big=True)
+    return case
+
+
 def warmup():
     from . import c02
     c02.warmup()
@@ -115,6 +156,8 @@ def check_case(case):
     arrays = [gen.expand_recording_arrays(r) for r in recipes]
     dts = [r["dt"] for r in recipes]
     labels = [policy, gen.family(m), f"ndt={len(set(dts))}"]
+    if case.get("big"):
+        labels.append("big-2^%d-bytes-of-raw-spectra" % int(math.log2(len(dts) * 8.0 * spec["_nfft"])))
     TS, R = hv.TimeSeries, hv.SeismicRecording3C
 
     def fresh(i):
@@ -218,7 +261,8 @@ def check_case(case):
                     others = [k for k in range(len(opt)) if not isinstance(exp[k], Refusal) and same_bits(g[j], exp[k][0][0])]
                     detail = (f"row {j} (recording {opt[j]}, dt={dts[opt[j]]:.6g}) differs from that recording processed alone "
                               f"(rel diff {rel_err(g[j], exp[j][0][0]):.3g})" + (f"; it equals recording {opt[others[0]]} processed alone" if others else ""))
-            raise Violation(f"{what}: {m}, {policy}, dts {[round(d, 6) for d in sub_dts]}: {detail}")
+            shown = [round(d, 6) for d in sub_dts]
+            raise Violation(f"{what}: {m}, {policy}, dts {shown if len(shown) <= 12 else str(shown[:12])[:-1] + ', ... %d in all]' % len(shown)}: {detail}")
 
     if len(set(dts)) >= 2 and len(dts) >= 3:
         nontrivial = True
